@@ -39,3 +39,16 @@ Definition caps_expected (a : adv) : list bool :=
 Definition bools_eqb := list_eqb Bool.eqb.
 Definition c07_caps_violations (cases : list (adv * list bool)) : list Z :=
   bad_indices (fun c => negb (bools_eqb (caps_expected (fst c)) (snd c))) cases.
+
+(* ---- which width method RenderedWidth uses (gwidth.go, vaxis.go RenderedWidth) ---- *)
+Inductive wmethod := Wcwidth | NoZWJ | UnicodeStd.
+Definition width_method (unicode_core explicit_width no_zwj : bool) : wmethod :=
+  if unicode_core || explicit_width then UnicodeStd else if no_zwj then NoZWJ else Wcwidth.
+(* a probe grapheme with its width under each method (computed by the library's gwidth) *)
+Definition probe_width (m : wmethod) (w : Z * Z * Z) : Z :=
+  let '(wc, nz, un) := w in match m with Wcwidth => wc | NoZWJ => nz | UnicodeStd => un end.
+(* case: (unicode core, explicit width, noZWJ) as Vaxis reports them, per-probe widths under the
+   three methods, and what RenderedWidth returned for each probe *)
+Definition c07_width_violations (cases : list (bool * bool * bool * list (Z * Z * Z) * list Z)) : list Z :=
+  bad_indices (fun c => let '(u, e, n, probes, obs) := c in
+                        negb (zlist_eqb (map (probe_width (width_method u e n)) probes) obs)) cases.
